@@ -51,6 +51,8 @@ def run(ctx):
     rep.rule("C05.R4", "subsystem protocol of the glue lambdas", 15)
     rep.rule("C05.R7", "two-body block typing: a block selecting body c's coordinates / velocities holds only body c's derivative quantities (K9)", 40)
     rep.rule("C05.R8", "relative polarity of body-2 vs body-1 terms agrees between the constraint and its derivatives (K9)", 25)
+    rep.rule("C05.R9", "all point-protocol calls of one body's joint glue name the same material point (xi, B_r_CP)", 4)
+    protocol.point_argument_agreement(ctx, "C05.R9", [("auxiliary_functions", BASE, ctx.repo.get(BASE, "auxiliary_functions"))])
     rep.rule("C05.R6", "Leibniz image of the primal's factor monomials equals the derivative routine's monomials (K10)", 18)
     model = ctx.model
     wanted = {"g", "g_q", "g_dot", "g_dot_q", "g_ddot", "W_g", "Wla_g_q", "g_dot_u"}
@@ -214,6 +216,11 @@ MUTANTS += [
          old="        g_q[:3, :nq1] = -self.r_OJ1_q1(t, q)\n        g_q[:3, nq1:] = self.r_OJ2_q2(t, q)", new="        g_q[:3, :nq1] = -self.r_OJ1_q1(t, q)\n        g_q[:3, nq1:] = -self.r_OJ2_q2(t, q)", expect="C05.R8"),
     dict(id="c05-k9-3", what="FixedDistance.g_dot_q: both blocks carry the factor -2", file="cardillo/constraints/fixed_distance.py",
          old="        g_dot_q[:, self._nq1 :] = 2 * (\n            r_J1J2 @ self.v_J2_q2(t, q, u)", new="        g_dot_q[:, self._nq1 :] = -2 * (\n            r_J1J2 @ self.v_J2_q2(t, q, u)", expect="C05.R8"),
+]
+MUTANTS += [
+    dict(id="c05-r9-1", canary=True, what="auxiliary_functions: acceleration of joint point 2 evaluated without the body-fixed offset", file=PB,
+         old="    object.a_J2 = lambda t, q, u, u_dot: object.subsystem2.a_P(\n        t, q[nq1:], u[nu1:], u_dot[nu1:], object.xi2, B2_r_P2B0\n    )",
+         new="    object.a_J2 = lambda t, q, u, u_dot: object.subsystem2.a_P(\n        t, q[nq1:], u[nu1:], u_dot[nu1:], object.xi2\n    )", expect=["C05.R9", "C05.R3"]),
 ]
 NEUTRAL = [
     dict(id="c05-n-k9", canary=True, what="explicit -1.0 factor instead of unary minus in g_q", file=PB,
